@@ -86,8 +86,8 @@ def targets(tier):
     k = 1 if tier == "quick" else 10
     t = {"updates": 60000 * k, "contract_evaluations": 60000 * k, "warmup_steps_observed": 10000 * k, "recs_on_drift_checked": 300 * k}
     for name in zoo.ALL:
-        t["drifts:" + name] = 20 * k
-        t["histories_3plus_epochs:" + name] = 5 * k
+        t["drifts:" + name] = (8 if name == "PCACD" else 20) * k
+        t["histories_3plus_epochs:" + name] = (2 if name == "PCACD" else 5) * k
     t["drifts:MD3"] = 10 * k
     return t
 
